@@ -31,6 +31,25 @@ from jax2onnx.plugins.plugin_system import PrimitiveLeafPlugin, register_primiti
 
 _WHERE_PRIM: Final = make_jnp_primitive("jax.numpy.where")
 
+
+def _jax_result_type(*avals: Any) -> tuple[np.dtype[Any], bool]:
+    """(dtype, weak_type) JAX itself gives an elementwise op over these operands.
+
+    Uses JAX's promotion lattice (not numpy's: float32 with int32 is float32, never
+    float64), honours weakly typed Python scalars and the current x64 mode.
+    """
+    specs = [
+        jax.ShapeDtypeStruct(
+            (), np.dtype(a.dtype), weak_type=bool(getattr(a, "weak_type", False))
+        )
+        for a in avals
+    ]
+    out = jax.eval_shape(
+        lambda *xs: jax.lax.full((), 0, jnp.result_type(*xs)), *specs
+    )
+    weak = all(bool(getattr(a, "weak_type", False)) for a in avals)
+    return np.dtype(out.dtype), weak
+
 # Deterministic fixtures used by regression-style testcases. Keep them small so
 # they stay easy to reason about while still exercising the broadcaster logic
 # that previously regressed when generated randomly.
@@ -287,9 +306,9 @@ class JnpWherePlugin(PrimitiveLeafPlugin):
             raise TypeError("jnp.where expects ShapedArray inputs")
         if not isinstance(y, ShapedArray):
             raise TypeError("jnp.where expects ShapedArray inputs")
-        promoted = np.promote_types(x.dtype, y.dtype)
+        promoted, out_weak = _jax_result_type(x, y)
         out_shape = jnp.broadcast_shapes(cond.shape, x.shape, y.shape)
-        return ShapedArray(out_shape, promoted)
+        return ShapedArray(out_shape, promoted, weak_type=out_weak)
 
     def lower(self, ctx: LoweringContextProtocol, eqn: JaxprEqn) -> None:
         cond_var, x_var, y_var = eqn.invars
@@ -316,10 +335,7 @@ class JnpWherePlugin(PrimitiveLeafPlugin):
             _stamp_type_and_shape(cond_val, tuple(getattr(cond_var.aval, "shape", ())))
             _ensure_value_metadata(ctx, cond_val)
 
-        target_dtype = np.promote_types(
-            np.dtype(getattr(x_var.aval, "dtype", np.float32)),
-            np.dtype(getattr(y_var.aval, "dtype", np.float32)),
-        )
+        target_dtype, _ = _jax_result_type(x_var.aval, y_var.aval)
         if (
             not ctx.builder.enable_double_precision
             and np.issubdtype(target_dtype, np.floating)
